@@ -918,6 +918,15 @@ def pncexpr(expr, ifile, verbose=0):
                 ):
                     vdimt = cand.dimensions
                     break
+            if (
+                tuple(len(ifile.dimensions[dk])
+                      if dk in ifile.dimensions else -1
+                      for dk in vdimt) != tuple(np.shape(val))
+            ):
+                raise ValueError(
+                    ('%s has shape %s; no variable of the expression has ' +
+                     'dimensions of these lengths (dimensions considered ' +
+                     'last: %s)') % (key, np.shape(val), vdimt))
             tmpfile.createVariable(key, val.dtype.char,
                                    vdimt, values=val, **propd)
 
